@@ -625,4 +625,41 @@ Section Session.
     destruct (fstep hdrdec kn s op) as [s1 o1]. destruct (frun hdrdec kn s1 t) as [s2 tr2] eqn:E2.
     inversion H; subst. cbn [length]. f_equal. apply (IH _ _ _ E2).
   Qed.
+
+  (* ---- a Put that returns an error changed nothing (or made the stream store refuse everything) ------------- *)
+  Lemma put_err_unchanged s st c d s' out : FInv s st -> blk_small (c, d) ->
+    fstep hdrdec kn s (FPut c d) = (s', out) -> is_err out = true ->
+    ws_idx s' = ws_idx s /\ (ws_file s' = ws_file s \/ (kn = 3 /\ ws_finalized s' = true)).
+  Proof.
+    intros HI Hsm. unfold fstep. destruct (kn =? 0) eqn:Ekn.
+    - assert (Hkn : kn = 0) by lia. unfold bs_put_many.
+      destruct (ws_closed s); [intros H; inversion H; subst; split; [reflexivity|left; reflexivity]|].
+      destruct (ws_finalized s) eqn:Ef; [intros H; inversion H; subst; split; [reflexivity|left; reflexivity]|].
+      pose proof (clean_of_finv_bs Hkn _ _ HI Ef) as HC. cbn [put_many_loop].
+      destruct (cid_parse c) as [p|] eqn:Hp; [|intros H; inversion H; subst; split; [reflexivity|left; reflexivity]].
+      destruct (put_one s c d p) as [s1 r1] eqn:Ep.
+      destruct (put_one_clean s st c d p s1 r1 HC (fi_opts _ _ HI) (fi_kind _ _ HI) Hp Hsm Ep) as (_ & _ & _ & Hcase).
+      destruct Hcase as [(-> & _) | (Herr & Hidx & Hrest)].
+      + intros H; inversion H; subst. discriminate.
+      + destruct r1; try discriminate. intros H; inversion H; subst. intros _. split; [exact Hidx|].
+        destruct Hrest as [(_ & Hf & _) | Hs]; [left; exact Hf|right; exact Hs].
+    - assert (Hkn : kn <> 0) by lia. unfold st_put.
+      destruct (cid_parse c) as [p|] eqn:Hp; [|intros H; inversion H; subst; split; [reflexivity|left; reflexivity]].
+      destruct (ws_closed s) eqn:Ec; [intros H; inversion H; subst; split; [reflexivity|left; reflexivity]|].
+      destruct (ws_finalized s) eqn:Ef; [intros H; inversion H; subst; split; [reflexivity|left; reflexivity]|].
+      pose proof (clean_of_finv_st Hkn _ _ HI Ec Ef) as HC. intros Ep He.
+      destruct (put_one_clean s st c d p s' out HC (fi_opts _ _ HI) (fi_kind _ _ HI) Hp Hsm Ep) as (_ & _ & _ & Hcase).
+      destruct Hcase as [(-> & _) | (Herr & Hidx & Hrest)]; [discriminate|].
+      split; [exact Hidx|]. destruct Hrest as [(_ & Hf & _) | Hs]; [left; exact Hf|right; exact Hs].
+  Qed.
+
+  (* in CARv1 mode the file is a complete archive of the acknowledged blocks at every moment *)
+  Lemma finv_v1_wf s st : FInv s st -> w_v1 o = true -> (kn <> 0 -> ws_finalized s = false) ->
+    wf_final (ws_file s) = Some (roots, st).
+  Proof.
+    intros HI Hv1 Hns. destruct (fi_state _ _ HI) as [Hd|HC]; [|apply clean_wf_v1; assumption].
+    exfalso. unfold Dead in Hd. destruct (kn =? 0) eqn:E.
+    - destruct Hd; congruence.
+    - destruct Hd as [[Hd _]|Hd]; [congruence|]. rewrite Hns in Hd by lia. discriminate.
+  Qed.
 End Session.
